@@ -25,6 +25,7 @@ Record iblk := {
   ib_preds : list nat;
   ib_succs : list nat;
   ib_phis : list nat;                       (* value ids of the phi instructions, in order *)
+  ib_defs : list nat;                       (* value ids of the other instructions that are values *)
   ib_if : option (bool * nat * nat);        (* ends with `if x == y` (true) / `if x != y` (false) on operands that can be nil *)
   ib_ret : option nat }.                    (* an exit block ending with `return v` *)
 
@@ -63,7 +64,7 @@ Fixpoint table_eqb (a b : table) : bool :=
 Section Fn.
   Variable F : ifn.
   Definition kind_of (v : nat) : ivkind := nth v (if_vals F) IVOther.
-  Definition block (b : nat) : iblk := nth b (if_blocks F) {| ib_preds := []; ib_succs := []; ib_phis := []; ib_if := None; ib_ret := None |}.
+  Definition block (b : nat) : iblk := nth b (if_blocks F) {| ib_preds := []; ib_succs := []; ib_phis := []; ib_defs := []; ib_if := None; ib_ret := None |}.
 
   (* nilnessOf; the recursion follows operands, fuel = number of values *)
   Fixpoint nilness_of (fuel : nat) (t : table) (v : nat) : nn :=
@@ -153,35 +154,31 @@ Section Fn.
   Definition set_of (s : ist) (b : nat) : list table := match aget (i_sets s) b with Some l => l | None => [] end.
   Definition is_seen (s : ist) (b : nat) : bool := existsb (Nat.eqb b) (i_seen s).
 
-  (* the tables propagated from one predecessor into block b *)
-  Definition from_pred (s : ist) (b pred : nat) : list table :=
+  (* entering block b over its edge number idx (from predecessor pred) with table t (after learning from the branch):
+     the nilness of every phi operand on that edge is read first (phis are assigned in parallel), then everything known
+     about a value defined by an instruction of b is dropped (those instructions are executed again), then the phis
+     are assigned (repair of findings F44) *)
+  Definition phi_cands (b idx : nat) (t : table) : list (nat * nn) :=
+    map (fun phi => (phi, match kind_of phi with IVPhi edges => nof t (nth idx edges 0) | _ => NUnk end)) (ib_phis (block b)).
+  Definition kill (t : table) (vs : list nat) : table := fold_left tdel vs t.
+  Definition enter (b idx : nat) (t : table) : table :=
+    let cs := phi_cands b idx t in
+    let t1 := kill (kill t (ib_phis (block b))) (ib_defs (block b)) in
+    fold_left (fun acc pc => match snd pc with NUnk => acc | n => exp acc (fst pc) n end) cs t1.
+
+  (* the tables propagated into block b over its edge number idx *)
+  Definition from_pred (s : ist) (b idx pred : nat) : list table :=
     let ps := match set_of s pred with [] => [[]] | l => l end in
     fold_left (fun acc t =>
       match learn b pred t with
       | None => acc
-      | Some l => fst (tadd acc (add_all t l))
+      | Some l => fst (tadd acc (enter b idx (add_all t l)))
       end) ps [].
 
   Definition under_preds (s : ist) (b : nat) : list (nat * list table) :=
-    fold_left (fun m pred => if is_seen s pred then astore m pred (from_pred s b pred) else m) (ib_preds (block b)) [].
-
-  (* one phi instruction over the per-predecessor tables *)
-  Definition phi_step (b : nat) (m : list (nat * list table)) (phi : nat) : list (nat * list table) :=
-    match kind_of phi with
-    | IVPhi edges =>
-      fst (fold_left (fun (mi : list (nat * list table) * nat) cand =>
-        let '(m0, i) := mi in
-        let pred := nth i (ib_preds (block b)) 0 in
-        (match aget m0 pred with
-         | None => m0
-         | Some ts =>
-           astore m0 pred (map (fun t =>
-             let cn := nof t cand in
-             let t1 := tdel t phi in
-             match cn with NUnk => t1 | _ => exp t1 phi cn end) ts)
-         end, S i)) edges (m, 0))
-    | _ => m
-    end.
+    fst (fold_left (fun (mi : list (nat * list table) * nat) pred =>
+      let '(m, idx) := mi in
+      ((if is_seen s pred then astore m pred (from_pred s b idx pred) else m), S idx)) (ib_preds (block b)) ([], 0)).
 
   Definition max_tables := 1024.
 
@@ -196,7 +193,7 @@ Section Fn.
       | O => IOutOfFuel
       | S f =>
         let s0 := match aget (i_sets s) b with Some _ => s | None => {| i_sets := astore (i_sets s) b []; i_seen := i_seen s |} end in
-        let m := fold_left (phi_step b) (ib_phis (block b)) (under_preds s0 b) in
+        let m := under_preds s0 b in
         let '(newset, upd) :=
           fold_left (fun (acc : list table * bool) (pt : nat * list table) =>
             fold_left (fun (acc2 : list table * bool) t => let '(l, a) := tadd (fst acc2) t in (l, snd acc2 || a)) (snd pt) acc)
